@@ -216,7 +216,8 @@ def build(tier):
         bounds={
             "kernel (z3 over the interpreted source)": f"k = {4 if q else 6} sequential I/Os (3-4 for stacks) with symbolic chunk sizes 1..64, I/O durations >= 0, idle gaps >= 0 and oversleeps >= 0 (reals); limits from the grid "
                                                        f"{[1, 3, 1000, 8192] if q else [1, 3, 1000, 8192, 2 ** 20]}, stacks of 2" + ("" if q else "-3") + " limits, reset_rate in (1, 10), both directions; "
-                                                       f"two streams sharing one limit: every interleaving of their wait/append events for 2 x {2 if q else 3} I/Os",
+                                                       f"two streams sharing one limit: every interleaving of their wait/append events for 2 x {2 if q else 3} I/Os, each stream with the shared throttle alone and with a tighter private limit below it "
+                                                       f"(shared/private in {[(3, 2)] if q else [(3, 2), (1000, 600), (8192, 8191)]})",
             "wiring (CrossHair)": "eight pairwise distinct limit values (server, per connection, per user, per user connection; read/write); two sessions of one user, optional re-login as another user (symbolic); client read/write limits",
         },
         outside=["more than 6 I/Os in sequence (no inductive invariant is claimed)", "IEEE-754 rounding (times and sums are reals in the solver)", "limits outside the grid (the arithmetic is linear in the limit)",
